@@ -187,7 +187,8 @@ func (t *Term) Int64() int64   { return t.Signed().Int64() }
 
 // TermTable: per-path hash-consing of non-constant terms.
 type TermTable struct {
-	m map[string]*Term
+	m   map[string]*Term
+	rng map[*Term]uRange // memo of termrange.go
 }
 
 func NewTermTable() *TermTable { return &TermTable{m: make(map[string]*Term, 1024)} }
@@ -383,6 +384,11 @@ func (tt *TermTable) Eq(a, b *Term) *Term {
 			return FalseT
 		}
 	}
+	if a.S.K == SBV {
+		if r := tt.cmpIteConst(OpEq, a, b); r != nil { // nested ite-tree of constants vs constant
+			return r
+		}
+	}
 	if a.ID > b.ID && !b.IsConst() {
 		a, b = b, a
 	}
@@ -521,6 +527,16 @@ func (tt *TermTable) bvBin(op Op, a, b *Term) *Term {
 		if a == b {
 			return a
 		}
+		// absorption: (.. | b | ..) & b = b
+		if a.Op == OpBVOr || b.Op == OpBVOr {
+			budget := 4096
+			if a.Op == OpBVOr && orContains(a, b, &budget) {
+				return b
+			}
+			if b.Op == OpBVOr && orContains(b, a, &budget) {
+				return a
+			}
+		}
 	case OpBVOr:
 		if a.IsConst() {
 			a, b = b, a
@@ -630,6 +646,12 @@ func (tt *TermTable) bvCmp(op Op, a, b *Term) *Term {
 		if b.IsConst() && a.Op == OpZExt && b.Val.BitLen() > a.Args[0].S.W {
 			return TrueT
 		}
+	}
+	if r := tt.cmpIteConst(op, a, b); r != nil { // ite-tree of constants vs constant, term_itecmp.go
+		return r
+	}
+	if r := tt.cmpByRange(op, a, b); r != nil { // interval analysis, termrange.go
+		return r
 	}
 	return tt.mk(op, BoolSort, 0, 0, "", a, b)
 }
@@ -822,6 +844,9 @@ func (tt *TermTable) ILe(a, b *Term) *Term {
 	if a == b {
 		return TrueT
 	}
+	if r := bv2natRange(a, b, true); r != nil {
+		return r
+	}
 	return tt.mk(OpILe, BoolSort, 0, 0, "", a, b)
 }
 func (tt *TermTable) ILt(a, b *Term) *Term {
@@ -831,7 +856,54 @@ func (tt *TermTable) ILt(a, b *Term) *Term {
 	if a == b {
 		return FalseT
 	}
+	if r := bv2natRange(a, b, false); r != nil {
+		return r
+	}
 	return tt.mk(OpILt, BoolSort, 0, 0, "", a, b)
+}
+
+// bv2natRange decides a <= b (le) or a < b when one side is bv2nat(x), whose
+// value lies in [0, 2^w), and the other a constant outside/at the edge of that range.
+func bv2natRange(a, b *Term, le bool) *Term {
+	if a.Op == OpBV2Nat && b.IsConst() {
+		w := a.Args[0].S.W
+		hi := new(big.Int).Lsh(big.NewInt(1), uint(w)) // bv2nat < hi
+		if le {
+			if b.Val.Sign() < 0 {
+				return FalseT
+			}
+			if new(big.Int).Add(b.Val, big.NewInt(1)).Cmp(hi) >= 0 {
+				return TrueT
+			}
+		} else {
+			if b.Val.Sign() <= 0 {
+				return FalseT
+			}
+			if b.Val.Cmp(hi) >= 0 {
+				return TrueT
+			}
+		}
+	}
+	if b.Op == OpBV2Nat && a.IsConst() {
+		w := b.Args[0].S.W
+		hi := new(big.Int).Lsh(big.NewInt(1), uint(w))
+		if le {
+			if a.Val.Sign() <= 0 {
+				return TrueT
+			}
+			if a.Val.Cmp(hi) >= 0 {
+				return FalseT
+			}
+		} else {
+			if a.Val.Sign() < 0 {
+				return TrueT
+			}
+			if new(big.Int).Add(a.Val, big.NewInt(1)).Cmp(hi) >= 0 {
+				return FalseT
+			}
+		}
+	}
+	return nil
 }
 func (tt *TermTable) BV2Nat(a *Term) *Term {
 	if a.IsConst() {
@@ -848,6 +920,25 @@ func (tt *TermTable) Int2BV(a *Term, w int) *Term {
 	}
 	if a.Op == OpBV2Nat {
 		return tt.Resize(a.Args[0], w, false)
+	}
+	// int2bv is a ring homomorphism Z -> Z/2^w: distribute over a sum when one
+	// summand then disappears into the bit-vector world (constant or bv2nat)
+	if a.Op == OpIAdd {
+		x, y := a.Args[0], a.Args[1]
+		if x.IsConst() || y.IsConst() || x.Op == OpBV2Nat || y.Op == OpBV2Nat {
+			return tt.BVAdd(tt.Int2BV(x, w), tt.Int2BV(y, w))
+		}
+	}
+	if a.Op == OpINeg {
+		if x := tt.Int2BV(a.Args[0], w); x.Op != OpInt2BV {
+			return tt.BVNeg(x)
+		}
+	}
+	if a.Op == OpIte {
+		x, y := tt.Int2BV(a.Args[1], w), tt.Int2BV(a.Args[2], w)
+		if x.Op != OpInt2BV && y.Op != OpInt2BV {
+			return tt.Ite(a.Args[0], x, y)
+		}
 	}
 	return tt.mk(OpInt2BV, BV(w), w, 0, "", a)
 }
